@@ -1,8 +1,40 @@
 /-
   DDS.Props.NonVacuityGen — AUDIT of the hypotheses of the headline theorems about REGENERATED code
-  (`Props/C01GenPag`, `C02GenPag`, `C04GenPag`, `C05GenSketch`, `C06GenPag`, `C09GenStore`, `C12GenIter`,
-  `C19GenProto`), in the manner of `DDS.Props.NonVacuity`: every theorem is APPLIED here to a concrete,
-  non-trivial instance, so that its hypotheses are shown to be jointly satisfiable.
+  (`Props/C01GenPag`, `C02GenPag`, `C04GenPag`, `C05GenSketch`, `C05GenLow`, `C05GenHigh`, `C06GenPag`, `C09GenStore`,
+  `C12GenIter`, `C19GenProto`), in the manner of `DDS.Props.NonVacuity`: every theorem is APPLIED here to a
+  concrete, non-trivial instance, so that its hypotheses are shown to be jointly satisfiable.  No hypothesis was
+  found to be unsatisfiable.
+
+  Instances used
+  * C01GenPag `quantile_accuracy_regenerated`, `adds_then_quantile_eq_model`; C05GenSketch
+    `collapsing_sketch_contents_regenerated(_high)`, `collapsing_quantile_retained_regenerated`,
+    `dense_quantile_accuracy_regenerated`: the mapping `QuantileEx.exEnv` (`exContract`), the seven inputs `exXs`
+    (both signs, the zero bucket), every `grow`, every `q ∈ [0, 1]`, collapsing limit `N = 1`.  The inner guard of
+    `collapsing_quantile_retained_regenerated` is met at `q = 1` (the selected bin is the edge; answer 6).
+  * C02GenPag `merge_tree_regenerated(_spec)`: `C02.demoEnv`, `C02.demoTree` (three leaves, six weighted inputs);
+    `weighted_history_regenerated`: `exEnv`, `Lift.exWs` — and its inner implication (`QExact` …) is met at
+    `z = 0, q = 1/8, rank' = 1/4` with `cp = [(1, 2)]`, `cn = exCn`.
+  * C04GenPag `gen_observers`, `gen_forEach_stops`, `gen_reads_preserve_content`, `gen_history_from`, `gen_merge`: the
+    store `NonVacuity.pagS` (a materialised page and a buffered entry), fuel 100 (`pagS_obsFuel`);
+    `gen_history_from`, `gen_history_observers`: the histories `gops` (adds, reweight 2, reweight 1) and `gops2` (a
+    `Clear` in the middle); `gen_merge`: `pagS` with the store of `NonVacuity.PStoreInv_inhabited`.
+  * C06GenPag `gen_pag_Encode`: `pagS`; `gen_pag_Decode_deltas`: `pagS`, capacity 4, the block `deltaBytes` (3 bins,
+    deltas 5, 2, -1, one trailing byte), every `grow` and fallback; `gen_pag_Decode_other`.
+  * C09GenStore `pag_roundtrip`, `pag_roundtrip_any`: `pagS`, the DESCENDING map order; `sparse_roundtrip`,
+    `sparse_to_dense_fromProto`: the sparse store `spC`, orders descending / ascending, kinds `.low 1`, `.pag`, the
+    instance `GenDecodeWrap.denseI`; `mergeWithProto_adds_gen`: the message `pbBoth` (map AND contiguous bins,
+    overlapping) into the non-empty sparse store `[(5, 1)]`.
+  * C12GenIter `forEach_gen_bins`, `forEach_gen_stops`: `C06.exS` (dense + paginated stores) under `C12.envC`;
+    `getSum_gen_exact`, `getSum_gen_accuracy`: `exEnv`, the inputs `nnXs = [5, 1, 3, 0, 12]`, `SumExact nnL`.
+  * C19GenProto: the theorems quantify over every instance `[MOps F64]` and the project declares none: `demoOps`
+    is one (local to the section), it meets `LeOne`, and `gamma = 1.02` passes its guard; all of
+    `log/lin/cub_proto_roundtrip(_model)`, `proto_roundtrip_inf_not_equals`, `proto_rejects_*` are applied.
+  * C05GenLow / C05GenHigh: `N = 2` (and `M = 3` for the merges), the history `lops`.
+  Fuel hypotheses are bounds by a function of the state; they are instantiated by the function itself or by a number
+  checked by evaluation (`pagS_obsFuel`, `pagS_feFuel`).
+
+  Only closed computations (`decide`, `decide +kernel`) and the audited theorems are used; every declaration depends on
+  `propext`, `Classical.choice`, `Quot.sound` at most.
 -/
 import DDS.Props.C01GenPag
 import DDS.Props.C02GenPag
@@ -13,6 +45,8 @@ import DDS.Props.C06GenPag
 import DDS.Props.C09GenStore
 import DDS.Props.C12GenIter
 import DDS.Props.C19GenProto
+import DDS.Props.C05GenLow
+import DDS.Props.C05GenHigh
 
 namespace DDS.Props.NonVacuityGen
 
@@ -798,5 +832,67 @@ example (fuel : Nat) :
   proto_rejects_unknown_interpolation fuel _ (Or.inr (by decide))
 
 end C19
+
+/-! ## C05GenLow / C05GenHigh (store-level C05 on the regenerated collapsing stores; no instance in their own
+    files): limit `N = 2`, a history over five distinct indexes of both signs with a `Clear` in it -/
+section C05Store
+open DDS.DStore DDS.GenDense DDS.Props.C05
+
+def lops : List C05GenLow.LOp := [.add 3 1, .add 10 (1 / 2), .clear, .add (-5) 2, .add 7 1, .add 8 1, .add 7 (1 / 4)]
+
+theorem lops_ok : ∀ op ∈ lops, op.toOp.ok32 := by
+  intro op hop
+  simp only [lops, List.mem_cons, List.not_mem_nil, or_false] at hop
+  rcases hop with rfl | rfl | rfl | rfl | rfl | rfl | rfl <;>
+    first | trivial | exact ⟨by decide +kernel, by decide, by decide⟩
+
+theorem lops_exact : exactContent (lops.map C05GenLow.LOp.toOp) = [(-5, 2), (7, 5 / 4), (8, 1)] := by
+  decide +kernel
+
+/-- `gen_low_never_panics`, `gen_low_content_after_history`, `gen_low_weight_conserved` at the fuel `2N + 2 = 6` -/
+example : (∃ s, C05GenLow.genRunLow 6 2 lops = .ok (toLow ((2 : Nat) : Int) s) ∧ InvLow 2 s) ∧
+    (∃ g, C05GenLow.genRunLow 6 2 lops = .ok g ∧
+      content (ofLow g) = Content.specLow 2 [(-5, 2), (7, 5 / 4), (8, 1)]) ∧
+    (∃ g, C05GenLow.genRunLow 6 2 lops = .ok g ∧
+      Gen.Dense.DenseStore.TotalCount g.DenseStore = Content.total [(-5, 2), (7, 5 / 4), (8, 1)]) := by
+  have h2 := C05GenLow.gen_low_content_after_history 6 2 (by omega) (by omega) lops lops_ok
+  have h3 := C05GenLow.gen_low_weight_conserved 6 2 (by omega) (by omega) lops lops_ok
+  rw [lops_exact] at h2 h3
+  exact ⟨C05GenLow.gen_low_never_panics 6 2 (by omega) (by omega) lops lops_ok, h2, h3⟩
+
+/-- `gen_low_merge_safe`: limits 2 and 3, fuel 9 -/
+example : ∃ g o s', C05GenLow.genRunLow 9 2 lops = .ok g ∧ C05GenLow.genRunLow 9 3 lops = .ok o ∧
+    Gen.Dense.CollapsingLowestDenseStore.MergeWith 9 g o = .ok (toLow ((2 : Nat) : Int) s') ∧
+    InvLow 2 s' ∧ s'.bins.size ≤ 2 ∧
+    s'.totalCount = Gen.Dense.DenseStore.TotalCount g.DenseStore
+                      + Gen.Dense.DenseStore.TotalCount o.DenseStore ∧
+    content s' = Content.specLow 2 ((exactContent (lops.map C05GenLow.LOp.toOp)).merge
+      (Content.specLow 3 (exactContent (lops.map C05GenLow.LOp.toOp)))) :=
+  C05GenLow.gen_low_merge_safe 9 2 3 (by omega) (by omega) (by omega) (by omega) lops lops lops_ok lops_ok
+
+def hops : List Op := lops.map C05GenLow.LOp.toOp
+
+theorem hops_ok : ∀ op ∈ hops, op.ok32 := C05GenLow.ok32_map lops lops_ok
+
+/-- `gen_high_never_panics`, `gen_high_content_after_history`, `gen_high_merge_safe` -/
+example : (∃ f0 s, (∀ fuel, f0 ≤ fuel → C05GenHigh.genRunHigh fuel 2 hops = .ok (toHigh ((2 : Nat) : Int) s)) ∧
+      InvHigh 2 s) ∧
+    (∃ f0 g, (∀ fuel, f0 ≤ fuel → C05GenHigh.genRunHigh fuel 2 hops = .ok g) ∧
+      content (ofHigh g) = Content.specHigh 2 [(-5, 2), (7, 5 / 4), (8, 1)] ∧
+      Gen.Dense.DenseStore.TotalCount g.DenseStore = Content.total [(-5, 2), (7, 5 / 4), (8, 1)]) := by
+  have h2 := C05GenHigh.gen_high_content_after_history 2 (by omega) hops hops_ok
+  rw [show exactContent hops = [(-5, 2), (7, 5 / 4), (8, 1)] from lops_exact] at h2
+  exact ⟨C05GenHigh.gen_high_never_panics 2 (by omega) hops hops_ok, h2⟩
+
+example : ∃ f0 g o g', ∀ fuel, f0 ≤ fuel →
+    C05GenHigh.genRunHigh fuel 2 hops = .ok g ∧ C05GenHigh.genRunHigh fuel 3 hops = .ok o ∧
+    Gen.Dense.CollapsingHighestDenseStore.MergeWith fuel g o = .ok g' ∧
+    g'.DenseStore.bins.length ≤ 2 ∧
+    g'.DenseStore.count = g.DenseStore.count + o.DenseStore.count ∧
+    content (ofHigh g') = Content.specHigh 2
+      ((exactContent hops).merge (Content.specHigh 3 (exactContent hops))) :=
+  C05GenHigh.gen_high_merge_safe 2 3 (by omega) (by omega) hops hops hops_ok hops_ok
+
+end C05Store
 
 end DDS.Props.NonVacuityGen
